@@ -96,6 +96,17 @@ def check(ctx, fns, rule="R32.request-fits", key_prefix="request-fits"):
                 if req in facs:
                     ctx.ok(rule, key, P.where(c), what)
                     continue
+                # min(X, M) written as a conditional: (X > M) ? M : X and its mirror forms
+                if isinstance(req, tuple) and req and req[0] == "cond" and len(req) == 4:
+                    cnd, a1, a2 = req[1], req[2], req[3]
+                    if isinstance(cnd, tuple) and cnd[0] == "bin" and cnd[1] in (">", ">=", "<", "<="):
+                        l, r = cnd[2], cnd[3]
+                        gt = cnd[1] in (">", ">=")
+                        big_small = (l, r) if gt else (r, l)       # condition true  =>  big_small[0] >(=) big_small[1]
+                        # true arm must be the smaller operand, false arm the other one, and one of them the allocation count
+                        if a1 == big_small[1] and a2 == big_small[0] and (a1 in facs or a2 in facs):
+                            ctx.ok(rule, key, P.where(c), what, "the request is the minimum of the allocation count and what is wanted")
+                            continue
                 # the request clamped to the allocation count: `if (req > M) req = M`
                 rtext = src(args[ci].strip_casts())
                 clamped_req = False
